@@ -7,8 +7,8 @@ V = "/verif"
 PLAN = {
  "C01_m1": [("C01", ["--only", "gf25519"])], "C01_m2": [("C01", ["--only", "scsecp256k1"])],
  "C01_m3": [("C01", ["--only", "gfsecp256k1"])], "C01_m4": [("C01", ["--only", "gf448"])],
- "C05_m1": [("C06", ["--only", "gls254"]), ("C19", ["--only", "gls254"])], "C05_m2": [("C05", ["--only", "gf448"])],
- "C05_m3": [("C05", ["--only", "sc448"])], "C05_m4": [("C05", ["--only", "gfsecp256k1"])],
+ "C05_m1": [("C05", ["--only", "bin"])], "C05_m2": [("C05", ["--only", "gf448"])],
+ "C05_m3": [("C05", ["--only", "gfgen256"])], "C05_m4": [("C05", ["--only", "gfsecp256k1"])],
  "C16_m1": [("C16", [])], "C16_m2": [("C16", [])], "C16_m3": [("C16", [])],
  "C20_m1": [("C20", ["--only", "lookup"])], "C20_m2": [("C03", []), ("C06", ["--only", "ristretto255"])],
  "C20_m3": [("C03", []), ("C06", ["--only", "decaf448"])], "C20_m4": [("C20", ["--only", "ed25519"])],
@@ -20,8 +20,8 @@ PLAN = {
  "C09_m3": [("C09", ["--only", "jq255s"])], "C09_m4": [("C09", ["--only", "jq255e"])],
  "C02_m1": [("C02", ["--only", "drv_ct_jq255e_ecdh"])], "C02_m2": [("C02", ["--only", "gf25519"])],
  "C02_m3": [("C02", ["--only", "p256"])], "C02_m4": [("C02", ["--only", "ed25519"])],
- "C04_m1": [("C11", []), ("C04", [])], "C04_m2": [("C11", []), ("C04", [])],
- "C04_m3": [("C11", []), ("C04", [])], "C04_m4": [("C11", []), ("C04", [])],
+ "C04_m1": [("C11", ["--only", "zz"])], "C04_m2": [("C11", ["--only", "zz"])],
+ "C04_m3": [("C11", ["--only", "secp256k1"]), ("C04", [])], "C04_m4": [("C11", ["--only", "zz"])],
  "C06_m1": [("C06", ["--only", "ristretto255"])], "C06_m2": [("C06", ["--only", "ed25519"])],
  "C06_m3": [("C06", ["--only", "p256"])], "C06_m4": [("C06", ["--only", "ed448"])],
  "C10_m1": [("C10", [])], "C10_m2": [("C10", [])], "C10_m3": [("C10", [])], "C10_m4": [("C10", [])],
